@@ -10,7 +10,7 @@ use crate::chan::{self, Kind};
 use crate::common::{file_violation, run_loop, Acc, Args};
 use crate::drive::Entry;
 use crate::json::J;
-use crate::payload::{Payload, Tok};
+use crate::payload::{DTok, Payload, Tok};
 use crate::sched::{mix, Rng};
 use crate::seq::{self, Engine, Op, R};
 use reactive_mutiny::ogre_std::ogre_queues::{atomic::atomic_move::AtomicMove, full_sync::full_sync_move::FullSyncMove, meta_container::MoveContainer, meta_publisher::MovePublisher, meta_subscriber::MoveSubscriber};
@@ -26,7 +26,11 @@ fn chan_transcript(kind: Kind, n: usize, m: usize, streams: usize, droppy: bool,
         eng.check_model = false;
         for op in script { eng.step(*op); }
         if !leftovers { eng.finish(false) }
-        eng.teardown().0
+        let before = crate::payload::RAW_DROPS.load(std::sync::atomic::Ordering::SeqCst);
+        let mut t = eng.teardown().0;
+        // (payloads with a destructor) how many were destroyed by the teardown: leftovers must be destroyed whatever the counters' values
+        if droppy { t.push(R::Len((crate::payload::RAW_DROPS.load(std::sync::atomic::Ordering::SeqCst) - before) as u32)) }
+        t
     }));
     match r { Ok(t) => t, Err(e) => vec![R::Panic(panic_text(e))] }
 }
@@ -36,20 +40,22 @@ fn chan_transcript(kind: Kind, n: usize, m: usize, streams: usize, droppy: bool,
 #[derive(Clone, Copy, Debug)]
 enum RingOp { Pub, PubWith, Cons, Len }
 
-fn ring_transcript<Q: MoveContainer<Tok> + MovePublisher<Tok> + MoveSubscriber<Tok>>(origin: Option<u32>, script: &[RingOp]) -> Vec<R> {
+fn ring_transcript<P: Payload, Q: MoveContainer<P> + MovePublisher<P> + MoveSubscriber<P>>(origin: Option<u32>, script: &[RingOp]) -> Vec<R> {
     let r = std::panic::catch_unwind(std::panic::AssertUnwindSafe(|| {
         rv::set_sequence_origin(origin); let q = Q::new(); rv::set_sequence_origin(None);
         let mut t = Vec::new(); let mut next = 1u64;
         for op in script {
             t.push(match op {
-                RingOp::Pub => { let id = next; next += 1; if q.publish_movable(Tok::make(id)).0.is_some() { R::Ok } else { R::Full } }
-                RingOp::PubWith => { let id = next; next += 1; let mut l = 0; if q.publish(|s| unsafe { std::ptr::write(s, Tok::make(id)) }, || false, |len| l = len).is_none() { R::Len(l) } else { R::Full } }
+                RingOp::Pub => { let id = next; next += 1; if q.publish_movable(P::make(id)).0.is_some() { R::Ok } else { R::Full } }
+                RingOp::PubWith => { let id = next; next += 1; let mut l = 0; if q.publish(|s| unsafe { std::ptr::write(s, P::make(id)) }, || false, |len| l = len).is_none() { R::Len(l) } else { R::Full } }
                 RingOp::Cons => match q.consume_movable() { Some(tok) => if tok.valid() { R::Got(tok.id()) } else { R::Got(u64::MAX) }, None => R::Nothing },
                 RingOp::Len => R::Len(q.available_elements_count() as u32),
             });
         }
-        // teardown with whatever is left
+        // teardown with whatever is left (payloads with a destructor: the leftovers must be destroyed, whatever the counters' values)
+        let before = crate::payload::RAW_DROPS.load(std::sync::atomic::Ordering::SeqCst);
         drop(q);
+        if P::DROPPY { t.push(R::Len((crate::payload::RAW_DROPS.load(std::sync::atomic::Ordering::SeqCst) - before) as u32)) }
         t
     }));
     match r { Ok(t) => t, Err(e) => vec![R::Panic(panic_text(e))] }
@@ -121,7 +127,7 @@ fn single(args: &Args, acc: &mut Acc, seed: u64, verbose: bool) {
         "channel" => {
             let kinds: Vec<Kind> = chan::ALL_KINDS.iter().copied().filter(|k| *k != Kind::MultiMmap && *k != Kind::UniMoveCrossbeam && *k != Kind::MultiArcCrossbeam && args.only.as_deref().map(|o| o == "channel" || k.name() == o).unwrap_or(true)).collect();
             let kind = *rng.pick(&kinds);
-            let droppy = rng.chance(1, 6) && !kind.has_reserve();
+            let droppy = rng.chance(1, 3) && !kind.has_reserve();
             let (n, m) = *rng.pick(&chan::cfgs_for(kind, droppy));
             let streams = 1 + rng.below(m.min(2) as u64) as usize;
             let mut alpha: Vec<Op> = vec![Op::Send(Entry::Send), Op::Send(Entry::SendWith), Op::Send(Entry::SendAsync), Op::Poll(0), Op::PollDrop(0), Op::Len, Op::ReleaseOldest];
@@ -145,9 +151,12 @@ fn single(args: &Args, acc: &mut Acc, seed: u64, verbose: bool) {
             let len = 3 + rng.below(200) as usize;
             let script: Vec<RingOp> = (0..len).map(|_| match rng.below(10) { 0..=3 => RingOp::Pub, 4 => RingOp::PubWith, 5..=8 => RingOp::Cons, _ => RingOp::Len }).collect();
             let k = origin_for(&mut rng, n, sweep);
-            macro_rules! go { ($t:ident, $($N:literal),*) => { match n { $($N => (ring_transcript::<$t<Tok, $N>>(None, &script), ring_transcript::<$t<Tok, $N>>(Some(k), &script)),)* _ => unreachable!() } } }
-            let (t0, tk) = if target == "ring.atomic" { go!(AtomicMove, 2, 4, 8) } else { go!(FullSyncMove, 2, 4, 8) };
-            (format!("{target}<N={n}>"), n, k, t0, tk, J::s(format!("{:?}", &script[..script.len().min(60)])))
+            let droppy = rng.chance(1, 3);
+            macro_rules! go { ($t:ident, $p:ident, $($N:literal),*) => { match n { $($N => (ring_transcript::<$p, $t<$p, $N>>(None, &script), ring_transcript::<$p, $t<$p, $N>>(Some(k), &script)),)* _ => unreachable!() } } }
+            if droppy { crate::payload::tracker().set_enabled(false); acc.count("ring_scripts_with_a_payload_destructor(leftovers_destroyed_at_teardown_compared)", 1) }
+            let (t0, tk) = match (target == "ring.atomic", droppy) { (true, false) => go!(AtomicMove, Tok, 2, 4, 8), (true, true) => go!(AtomicMove, DTok, 2, 4, 8), (false, false) => go!(FullSyncMove, Tok, 2, 4, 8), (false, true) => go!(FullSyncMove, DTok, 2, 4, 8) };
+            if droppy { crate::payload::tracker().set_enabled(true); let _ = crate::payload::tracker().take_problems(); }
+            (format!("{target}<N={n}>{}", if droppy { " payload with destructor" } else { "" }), n, k, t0, tk, J::s(format!("{:?}", &script[..script.len().min(60)])))
         }
         "pool" => {
             let n = *rng.pick(&[2usize, 4, 8]); let ring = *rng.pick(&["atomic", "full_sync"]);
